@@ -420,6 +420,10 @@ def run(ctx, report):
     from .. import simpeval
     simpeval.emit(R11, ctx, lambda l: True, ('value', 'width', 'result', 'raises', 'loops'))
 
+    R12c = report.rule('C06.D12', 'a copied pool (mpool.copy) carries every attribute the pool methods update: evaluation in a forked state is the evaluation in the state it was forked from (shared with C12.D16)', floor=2)
+    from .c12 import state_copy_rule
+    state_copy_rule(R12c, [ctx.mod('eval_abs')])
+
     R9 = report.rule('C06.D9', 'the memory model adds 32-bit constants to cell addresses: every address that enters it (read, store) is widened to 32 bits first', floor=3)
     addr_width_rule(R9, ea, methods)
 
